@@ -354,8 +354,16 @@ def weightings(draw):
     return d
 
 
-FLOATS = ['float64', 'float32', 'complex128', 'complex64']
+# (half and extended precision: the real <-> complex dtype maps are not
+# inverse to each other there: float16 -> complex64 -> float32)
+FLOATS = ['float64', 'float32', 'complex128', 'complex64', 'float64',
+          'complex128', 'float16', 'float16', 'float128', 'complex256']
 ALL_DTYPES = FLOATS + ['int64', 'int32', 'uint8']
+OTHER_DTYPE = {'float64': 'float32', 'float32': 'float64',
+               'complex128': 'complex64', 'complex64': 'complex128',
+               'int64': 'int32', 'int32': 'int64', 'uint8': 'int64',
+               'float16': 'float32', 'float128': 'float64',
+               'complex256': 'complex128'}
 
 
 @st.composite
@@ -432,8 +440,9 @@ def leaf_descs(draw, dtypes=None, **kw):
 def pspace_descs(draw, depth=None, family=None, power_only=False):
     depth = draw(st.sampled_from([1, 1, 2])) if depth is None else depth
     family = family or draw(st.sampled_from(['real', 'real', 'cplx']))
-    dts = {'real': ['float64', 'float32', 'int64'],
-           'cplx': ['complex128', 'complex64']}[family]
+    dts = {'real': ['float64', 'float32', 'int64', 'float16', 'float64'],
+           'cplx': ['complex128', 'complex64', 'complex128',
+                    'complex256']}[family]
 
     def rec(d):
         if d == 0:
@@ -715,11 +724,8 @@ def space_mutations(sd):
     w = sd.get('weighting')
     if kind in ('tensor', 'discr'):
         dt = np.dtype(sd['dtype'])
-        other = {'float64': 'float32', 'float32': 'float64',
-                 'complex128': 'complex64', 'complex64': 'complex128',
-                 'int64': 'int32', 'int32': 'int64', 'uint8': 'int64'}
         m = _copy(sd)
-        m['dtype'] = other[dt.name]
+        m['dtype'] = OTHER_DTYPE[dt.name]
         add('dtype', m, 'unequal')
         if dt.kind == 'f':
             m = _copy(sd)
